@@ -1,5 +1,8 @@
 """C01 — sequential-history correspondence + theorems (see DESIGN.md §9 C01)."""
+import json, os
+import common as C
 import seqprop
+from runner import Violation
 
 LEVEL = "proof"
 LEAN_MODULES = ["FsDb.Properties.C01"]
@@ -14,8 +17,28 @@ NEED = ['v:', 'e:NotFound', 'e:EmptyKey', 'keys:']
 CORPUS = None
 
 
+def held_readers(ctx):
+    """a reader obtained from GetReader and drained late (after overwrite / delete + collector + cleanup)"""
+    rc, out = C.go_test("./pkg/inline/db", "TestVerifHeldReader", {"VERIF_OUT": ctx.rd}, timeout=1200)
+    p = os.path.join(ctx.rd, "heldreader.json")
+    if rc != 0 or not os.path.exists(p):
+        rp = C.write_replay("C01", "heldreader-failed", {"property": "C01", "kind": "impl-run-failed", "go_test_output": out[-6000:]})
+        return [Violation("impl-run-failed", "the held-reader scenario failed to run: " + out.strip().split("\n")[-1][:160], rp)], 0
+    d = json.load(open(p))
+    v = []
+    if d.get("bad"):
+        rp = C.write_replay("C01", "heldreader", {"property": "C01", "kind": "held-reader", "observed": d["bad"][:10],
+                            "replay_env": "VERIF_OUT=<dir> go test -tags verif -run TestVerifHeldReader ./pkg/inline/db"})
+        v.append(Violation("c01-held-reader", "a reader obtained from GetReader did not deliver the value the key had when it was obtained: " + d["bad"][0], rp))
+    return v, d.get("cases", 0)
+
+
 def correspond(ctx):
-    return seqprop.correspond(ctx, "C01", PROFILE, QUICK, THOROUGH, WHAT, need_answers=NEED, corpus=CORPUS)
+    res = seqprop.correspond(ctx, "C01", PROFILE, QUICK, THOROUGH, WHAT, need_answers=NEED, corpus=CORPUS)
+    v, n = held_readers(ctx)
+    res["violations"] = list(res.get("violations", [])) + v
+    res.setdefault("coverage", {})["held_reader_cases"] = n
+    return res
 
 
 def search(ctx):
